@@ -290,14 +290,14 @@ func checkMain(args []string) int {
 	}
 	fmt.Printf("%s tier=%s units=%d obligations=%d (explicit %d, trivially true %d) discharged=%d violations=%d load=%.1fs gen=%.1fs wall=%.1fs\n",
 		*prop, *tier, len(gens), len(items), explicit, trivial, nd, violations, tLoad, tGen, wall)
-	if len(machinery) > 0 {
-		for _, m := range machinery {
-			fmt.Fprintln(os.Stderr, "govc: MACHINERY ERROR:", m)
-		}
-		return 2
+	for _, m := range machinery {
+		fmt.Fprintln(os.Stderr, "govc: MACHINERY ERROR:", m)
 	}
 	if violations > 0 {
 		return 1
+	}
+	if len(machinery) > 0 {
+		return 2
 	}
 	return 0
 }
